@@ -109,6 +109,7 @@ def place_storage(draw, loops, tensors, lower_levels):
 
 def to_af_mapping(tree):
     from accelforge.frontend.mapping import Compute, Mapping, Storage, Temporal, Sequential, Nested
+    from accelforge.frontend.mapping import Toll as MToll
 
     def conv(nodes):
         out = []
@@ -119,6 +120,8 @@ def to_af_mapping(tree):
                 if n.get("persistent"):
                     kw["persistent"] = True
                 out.append(Storage(tensors=list(n["tensors"]), component=n["level"], **kw))
+            elif k == "toll":
+                out.append(MToll(tensors=list(n["tensors"]), component=n["level"]))
             elif k == "loop":
                 out.append(Temporal(rank_variable=n["rv"], tile_shape=n["tile"]))
             elif k == "compute":
